@@ -69,6 +69,16 @@ CHECKS = {
     technique="TLA+ definition of the Akamai fingerprint over abstract frame sequences and of the incremental extractor on offsets (Akamai.tla); TLC-generated connection starts replayed into extract_akamai_fingerprint_from_bytes; per-chunk returns of Http2FingerprintExtractor::add_bytes for every cut position trace-validated by TLC (TV_C17)",
     text="TLC enumerates client connection starts (SETTINGS with boundary and unknown ids and 32-bit values, first connection-level WINDOW_UPDATE with and without the reserved bit, PRIORITY frames incl. exclusive and 31-bit dependencies, HEADERS in every pseudo-header order with PADDED / PRIORITY / CONTINUATION framing, unusual frame orders, missing or repeated SETTINGS), with and without the preface, renders them to bytes and assigns the fingerprint of every frame prefix; the one-shot extractor must return it with the right truncated SHA-256, and for every byte cut position and seeded k-partitions the incremental extractor's per-chunk returns must be exactly what the offset machine assigns: one report, on the chunk completing the first SETTINGS frame, equal to the one-shot fingerprint of the bytes so far.",
     note="Trusted: TLC, Akamai/Http2/Hpack specs, SHA-256 by hashlib. A chunk boundary between a HEADERS frame and its CONTINUATION leaves the pseudo-header part unjudged (position still judged)."),
+ "C10": dict(
+    level="model_checking", design="§5 C10",
+    technique="TLA+ worker-pool specification (Pool.tla: dispatch in three steps, bounded queues, batching workers, stateful abstract analysis) model-checked by TLC for SequentialEquivalence and termination over all interleavings; real pool runs (1..16 workers, batches, seeded schedule perturbation via hook H2, frozen clock H1) compared with the sequential analyzers, judged by TLC (TV_C10)",
+    text="TLC explores every interleaving of the dispatcher's three steps with the receive / fill / process steps of 2-3 workers and shows that with connection-based routing and non-overflowing queues every packet is analysed with exactly the state a sequential analyzer would have, and that the historical direction-dependent HTTP routing breaks this; interleaved real traces of complete TCP, TLS and HTTP connections are then run through the sequential analyzers and through real pools with 1..16 workers, several batch sizes and per-run seeded perturbation, and TLC checks per connection (per sending host for TCP) that the delivered results are exactly the sequential ones in order.",
+    note="Trusted: TLC, Pool.tla, hooks H1/H2, result attribution by reported endpoints. One dispatcher, large queues, no shutdown before drain."),
+ "C18": dict(
+    level="model_checking", design="§5 C18",
+    technique="Pool.tla model-checked by TLC for at-most-once / dropped-never / queued-once / counters-agree under concurrent dispatchers and forced overflow; dispatch hashes evaluated on TLC-generated identity families for 1..64 workers and checked for functional dependency (TV_C18a); recorded global event order of real pool runs (hook H2) trace-validated against the pool's steps (TV_Pool)",
+    text="TLC checks the accounting invariants on every interleaving of two concurrent dispatchers and 2-3 workers at queue capacities 0, 1 and 2 under each crate's counter convention; MC_C18 generates families of frames that share an identity while payload, flags, sequence numbers, TTL, IP id, TOS, window, IP header length 0..15, options, framing, truncation and direction vary, and for every worker count 1..64 the three real hash functions must be functions of the identity and valid indices; real pools are driven by 1-3 concurrent dispatcher threads with queue sizes 0/1/4 and perturbation, and the recorder's global order of dispatch-start, dispatch-end and worker-takes-packet events plus the final statistics must be a behaviour of the pool specification.",
+    note="Trusted: TLC, Pool.tla / TV_Pool.tla, hook H2 (worker id from thread name, sequence numbers under the recorder lock). Before shutdown only."),
 }
 
 NOT_YET = {}
